@@ -1045,6 +1045,59 @@ def fn_id(f):
     return f["name"]
 
 
+
+def _sig_param_names(sig):
+    """names of the non-self parameters of a fn signature, in order (None for a pattern that is not a plain identifier)"""
+    m = code_mask(sig)
+    p = sig.index("(", sig.index("fn "))
+    lt = sig.find("<", sig.index("fn "))
+    if 0 <= lt < p:
+        d = 0
+        q = lt
+        while True:
+            if sig[q] == "<":
+                d += 1
+            elif sig[q] == ">" and sig[q - 1] != "-":
+                d -= 1
+                if d == 0:
+                    break
+            q += 1
+        p = sig.index("(", q)
+    pe = match_close(sig, m, p)
+    names = []
+    for part in _split_top_commas(sig[p + 1:pe]):
+        t = part.strip()
+        if not t or re.match(r"^(&\s*('\w+\s+)?)?(mut\s+)?self\b", t):
+            continue
+        mo = re.match(r"^(?:mut\s+)?(\w+)\s*:", t)
+        names.append(mo.group(1) if mo else None)
+    return names
+
+
+def _follow_param_names(f, sig):
+    want = list(f["params"])
+    have = _sig_param_names(sig)
+    if len(want) != len(have) or want == have:
+        return f, []
+    ren = [(w, h) for w, h in zip(want, have) if h and w != h]
+    if not ren:
+        return f, []
+
+    def sub(x):
+        if isinstance(x, str):
+            for w, h in ren:
+                x = re.sub(r"(?<![\w.])%s\b" % re.escape(w), h, x)
+            return x
+        if isinstance(x, list):
+            return [sub(y) for y in x]
+        if isinstance(x, dict):
+            return {k: (sub(v) if k in ("requires", "ensures", "head", "head_raw", "tail", "proof", "invariant", "invariant_except_break",
+                                         "decreases", "body_head", "body_head_raw", "hint", "loop") else v) for k, v in x.items()}
+        return x
+    g = sub(dict(f))
+    return g, [("R-paramname", ", ".join(w for w, _ in ren), ", ".join(h for _, h in ren))]
+
+
 def emit_fn(f, udir, unit_props, recs, log_global):
     """returns (emit_impl_header, text) for one [[fn]] entry."""
     if "from_unit" in f:
@@ -1109,6 +1162,11 @@ def emit_fn(f, udir, unit_props, recs, log_global):
         cuts.append((h["start"] - loc["body_open"], h["body_close"] + 1 - loc["body_open"], hn))
     for (a, b, hn) in sorted(cuts, reverse=True):
         body = body[:a] + "/* nested fn %s hoisted */" % hn + body[b:]
+    pn_log = []
+    if f.get("params"):
+        # R-paramname: the contract text names the parameters as listed in `params`; when the code has renamed one (typically to
+        # `_x` after it stopped using it) the contract follows the rename - the body is not touched
+        f, pn_log = _follow_param_names(f, sig)
     rec = FnRec()
     rec.id = fn_id(f)
     rec.mode = f.get("mode", "prove")
@@ -1120,7 +1178,7 @@ def emit_fn(f, udir, unit_props, recs, log_global):
     rec.fn_name = f["name"] + ("__" + f["variant"] if f.get("variant") else "")
     rec.carve_out_of = f.get("carve_out_of")
     rec.impl_hdr = f.get("emit_impl", f.get("impl") or "")
-    log = []
+    log = list(pn_log)
     where = "%s (%s:%d)" % (rec.id, f["source"], loc["line"])
     sig, l = r_vis(sig)
     log += l
